@@ -1,4 +1,4 @@
-import SimuVerif.Lemmas.C12_Cov
+import SimuVerif.Lemmas.C12_Centred
 /-
   C12 — volume, area, centroid, bounding box and normals are exact and frame-independent.
 
@@ -10,10 +10,15 @@ import SimuVerif.Lemmas.C12_Cov
 
   "The reported volume equals the enclosed volume": the enclosed volume of a closed oriented
   triangulated surface IS, by the divergence theorem, (1/6)·Σ_faces det(p₁,p₂,p₃); that formula
-  is taken as the definition here (`volume_is_signed_tet_sum`), the divergence theorem itself
-  is not formalised.  What is proved is that this number has every invariance an enclosed
-  volume must have (translation — only for closed surfaces —, rotation, reflection up to sign,
-  s³ scaling, independence of face order, node numbering and which node of a face comes first),
+  is taken as the definition here (`volume_is_enclosed_volume`), the divergence theorem itself
+  is not formalised.  The code forms the determinants of the positions RELATIVE TO
+  `get_volume_reference_point()` = the first node of the first used face (`volume_is_signed_tet_sum`:
+  what it computes on every triangle list), so that nothing cancels far from the coordinate origin;
+  `volume_centred_eq` shows that for a closed surface this is the same number whatever the reference
+  point is.  What is proved is that this number has every invariance an enclosed
+  volume must have (translation — now for EVERY triangle list, `volume_translate_exact` —, rotation,
+  reflection up to sign, s³ scaling, node numbering; independence of the face order and of which node of
+  a face comes first for closed surfaces: on an open one they move the reference point),
   and that it is the flux Σ 2·area·(p₁·n̂)/6 of the reported normals (`vol_eq_normal_flux`), which
   is what ties "normals point outward" to "signed volume positive".
 -/
@@ -25,42 +30,82 @@ variable {R : Type} [Field R] [LinearOrder R] [IsStrictOrderedRing R]
 
 /-! ## volume -/
 
-/-- `compute_volume` returns |Σ_faces det(p₁,p₂,p₃)| / 6 (the two 6-term formulas of the source
-    — the one in `compute_volume` and the one in `check_face_normal_orientation` — are this determinant) -/
+/-- what `compute_volume` returns on EVERY triangle list: |Σ_faces det(p₁−o, p₂−o, p₃−o)| / 6 with
+    `o = get_volume_reference_point()` (the two 6-term formulas of the source — the one in `compute_volume` and the
+    one in `check_face_normal_orientation` — are this determinant) -/
 theorem volume_is_signed_tet_sum (pos : Nat → V3 R) (T : List Tri) :
-    volume pos T = |(T.map (fun t => det3 (pos t.1) (pos t.2.1) (pos t.2.2))).sum| / 6 :=
+    volume pos T = |(T.map (fun t => det3 (pos t.1 - refPoint pos T) (pos t.2.1 - refPoint pos T)
+      (pos t.2.2 - refPoint pos T))).sum| / 6 :=
   volume_eq pos T
+
+/-- the reference point is the first node of the first face (and the zero vector when there is no face) -/
+theorem reference_point_is_first_node (pos : Nat → V3 R) (t : Tri) (T : List Tri) :
+    refPoint pos (t :: T) = pos t.1 ∧ refPoint pos ([] : List Tri) = ⟨0, 0, 0⟩ :=
+  ⟨refPoint_cons pos t T, refPoint_nil pos⟩
+
+/-- **the repair is justified**: for a CLOSED surface the centred sum is the un-centred sum Σ det(p₁,p₂,p₃),
+    for EVERY reference point `o` — in particular for the one the code uses -/
+theorem volume_centred_eq (pos : Nat → V3 R) (T : List Tri) (hc : Closed T) (o : V3 R) :
+    volSumAt pos o T = (T.map (fun t => det3 (pos t.1) (pos t.2.1) (pos t.2.2))).sum ∧
+    volSum pos T = (T.map (fun t => det3 (pos t.1) (pos t.2.1) (pos t.2.2))).sum :=
+  ⟨volSumAt_closed pos T hc o, volSum_closed pos T hc⟩
+
+/-- the same for the sum of the orientation test -/
+theorem orient_sum_centred_eq (pos : Nat → V3 R) (T : List Tri) (hc : Closed T) (o : V3 R) :
+    svSumAt pos o T = (T.map (fun t => det3 (pos t.1) (pos t.2.1) (pos t.2.2))).sum ∧
+    svSum pos T = (T.map (fun t => det3 (pos t.1) (pos t.2.1) (pos t.2.2))).sum :=
+  ⟨svSumAt_closed pos T hc o, svSum_closed pos T hc⟩
+
+/-- for any closed triangulated cell the reported volume is the enclosed volume |Σ_faces det(p₁,p₂,p₃)| / 6 -/
+theorem volume_is_enclosed_volume (pos : Nat → V3 R) (T : List Tri) (hc : Closed T) :
+    volume pos T = |(T.map (fun t => det3 (pos t.1) (pos t.2.1) (pos t.2.2))).sum| / 6 :=
+  volume_closed pos T hc
 
 /-- the sum used to decide the orientation is the sum used for the volume -/
 theorem orient_sum_eq_volume_sum (pos : Nat → V3 R) (T : List Tri) : svSum pos T = volSum pos T := by
   rw [svSum_eq, volSum_eq]
 
+/-- **exact translation invariance, for EVERY triangle list, closed or not**: the reference point moves along, every
+    relative position is unchanged — no cancellation argument is needed.  Also with an explicit reference point. -/
+theorem volume_translate_exact (pos : Nat → V3 R) (T : List Tri) (d : V3 R) :
+    volSum (fun i => pos i + d) T = volSum pos T ∧ volume (fun i => pos i + d) T = volume pos T ∧
+    ∀ o, volSumAt (fun i => pos i + d) (o + d) T = volSumAt pos o T := by
+  have h : volSum (fun i => pos i + d) T = volSum pos T := by
+    have := volSum_map (fun p => p + d) 1 (fun a b c o => by
+      rw [V3.add_sub_add_right', V3.add_sub_add_right', V3.add_sub_add_right', one_mul]) pos T
+    rw [one_mul] at this; exact this
+  refine ⟨h, by unfold volume; rw [h], fun o => ?_⟩
+  rw [volSumAt_eq, volSumAt_eq, rel_translate]
+
+/-- the same for the signed sum of the orientation test, hence for the decision to flip every face -/
+theorem orient_sum_translate_exact (pos : Nat → V3 R) (T : List Tri) (d : V3 R) :
+    svSum (fun i => pos i + d) T = svSum pos T ∧ finalFlip (fun i => pos i + d) T = finalFlip pos T ∧
+    ∀ o, svSumAt (fun i => pos i + d) (o + d) T = svSumAt pos o T := by
+  have h : svSum (fun i => pos i + d) T = svSum pos T := by
+    rw [orient_sum_eq_volume_sum, orient_sum_eq_volume_sum]; exact (volume_translate_exact pos T d).1
+  refine ⟨h, by unfold finalFlip; rw [h], fun o => ?_⟩
+  rw [svSumAt_eq, svSumAt_eq, rel_translate]
+
 /-- translation invariance, for closed surfaces (every half-edge matched by its reverse) -/
 theorem vol_translate (pos : Nat → V3 R) (T : List Tri) (hc : Closed T) (d : V3 R) :
-    volSum (fun i => pos i + d) T = volSum pos T := by
-  rw [volSum_eq, volSum_eq]
-  have h1 : tdet (fun i => pos i + d)
-      = fun t => tdet pos t + ((fun i j => edgeTerm d (pos i) (pos j)) t.1 t.2.1
-          + (fun i j => edgeTerm d (pos i) (pos j)) t.2.1 t.2.2
-          + (fun i j => edgeTerm d (pos i) (pos j)) t.2.2 t.1) := by
-    funext t; simp only [tdet, det3_translate]
-  rw [h1, sum_map_add', closed_sum_zero T hc _ (fun i j => edgeTerm_antisymm d (pos i) (pos j)), add_zero]
+    volSum (fun i => pos i + d) T = volSum pos T := (volume_translate_exact pos T d).1
 
 theorem volume_translate (pos : Nat → V3 R) (T : List Tri) (hc : Closed T) (d : V3 R) :
-    volume (fun i => pos i + d) T = volume pos T := by
-  unfold volume; rw [vol_translate pos T hc d]
+    volume (fun i => pos i + d) T = volume pos T := (volume_translate_exact pos T d).2.1
 
 /-- every rotation (orientation-preserving linear isometry) leaves the signed sum unchanged -/
 theorem vol_rotate {M : V3 R → V3 R} (hM : Rot M) (pos : Nat → V3 R) (T : List Tri) :
     volSum (fun i => M (pos i)) T = volSum pos T := by
-  rw [volSum_eq, volSum_eq]; congr 1
-  apply List.map_congr_left; intro t _; exact det3_rot hM _ _ _
+  have := volSum_map M 1 (fun a b c o => by
+    rw [hM.map_sub, hM.map_sub, hM.map_sub, det3_rot hM, one_mul]) pos T
+  rw [one_mul] at this; exact this
 
 /-- a reflection flips the sign of the signed sum … -/
 theorem vol_reflect {M : V3 R → V3 R} (hM : Refl M) (pos : Nat → V3 R) (T : List Tri) :
     volSum (fun i => M (pos i)) T = - volSum pos T := by
-  rw [volSum_eq, volSum_eq, ← sum_map_neg']; congr 1
-  apply List.map_congr_left; intro t _; exact det3_refl hM _ _ _
+  have := volSum_map M (-1) (fun a b c o => by
+    rw [hM.map_sub, hM.map_sub, hM.map_sub, det3_refl hM, neg_one_mul]) pos T
+  rw [neg_one_mul] at this; exact this
 
 /-- … so the reported volume is unchanged by rotations and by reflections -/
 theorem volume_rotate {M : V3 R → V3 R} (hM : Rot M) (pos : Nat → V3 R) (T : List Tri) :
@@ -74,39 +119,59 @@ theorem volume_reflect {M : V3 R → V3 R} (hM : Refl M) (pos : Nat → V3 R) (T
 
 /-- uniform scaling: the signed sum scales with s³ -/
 theorem vol_scale (pos : Nat → V3 R) (T : List Tri) (s : R) :
-    volSum (fun i => pos i * s) T = s * s * s * volSum pos T := by
-  rw [volSum_eq, volSum_eq, ← sum_map_mul_left']; congr 1
-  apply List.map_congr_left; intro t _; exact det3_smul _ _ _ s
+    volSum (fun i => pos i * s) T = s * s * s * volSum pos T :=
+  volSum_map (fun p => p * s) (s * s * s) (fun a b c o => by
+    have e : ∀ u v : V3 R, u * s - v * s = (u - v) * s := fun u v => by apply V3.ext' <;> simp <;> ring
+    rw [e, e, e, det3_smul]) pos T
 
 theorem volume_scale (pos : Nat → V3 R) (T : List Tri) (s : R) (hs : 0 ≤ s) :
     volume (fun i => pos i * s) T = s * s * s * volume pos T := by
-  rw [volume_eq, volume_eq]
-  have := vol_scale pos T s
-  rw [volSum_eq, volSum_eq] at this
-  rw [this, abs_mul, abs_of_nonneg (mul_nonneg (mul_nonneg hs hs) hs)]; ring
+  unfold volume volFinish
+  rw [vol_scale pos T s]
+  simp only [sabs_eq_abs, lit_eq]
+  rw [mul_div_assoc, abs_mul, abs_of_nonneg (mul_nonneg (mul_nonneg hs hs) hs)]
 
-/-- the order of the faces is irrelevant -/
-theorem vol_perm_faces (pos : Nat → V3 R) {T T' : List Tri} (h : T.Perm T') : volSum pos T' = volSum pos T := by
-  rw [volSum_eq, volSum_eq]; exact ((h.map _).sum_eq).symm
+/-- the order of the faces is irrelevant (closed surfaces: on an open one the first face fixes the reference point) -/
+theorem vol_perm_faces (pos : Nat → V3 R) {T T' : List Tri} (hc : Closed T) (h : T.Perm T') :
+    volSum pos T' = volSum pos T :=
+  volSum_closed_congr pos hc (closed_perm h hc) ((h.map _).sum_eq).symm
 
-theorem volume_perm_faces (pos : Nat → V3 R) {T T' : List Tri} (h : T.Perm T') : volume pos T' = volume pos T := by
-  unfold volume; rw [vol_perm_faces pos h]
+theorem volume_perm_faces (pos : Nat → V3 R) {T T' : List Tri} (hc : Closed T) (h : T.Perm T') :
+    volume pos T' = volume pos T := by
+  unfold volume; rw [vol_perm_faces pos hc h]
 
 /-- renumbering the nodes (positions carried along) is irrelevant -/
 theorem vol_rename_nodes (σ : Nat → Nat) (pos pos' : Nat → V3 R) (h : ∀ i, pos' (σ i) = pos i) (T : List Tri) :
     volSum pos' (T.map (Tri.map σ)) = volSum pos T := by
-  rw [volSum_eq, volSum_eq, List.map_map]; congr 1
-  apply List.map_congr_left; intro t _; simp only [Function.comp_def, tdet, Tri.map, h]
+  have hr : refPoint pos' (T.map (Tri.map σ)) = refPoint pos T := by
+    cases T with
+    | nil => rfl
+    | cons t T => rw [List.map_cons, refPoint_cons, refPoint_cons]; simp only [Tri.map, h]
+  rw [volSum_eq, volSum_eq, hr, List.map_map]; congr 1
+  apply List.map_congr_left; intro t _; simp only [Function.comp_def, tdet, rel, Tri.map, h]
 
-/-- which node of a face comes first is irrelevant -/
-theorem vol_cyclic (pos : Nat → V3 R) (T : List Tri) :
+/-- which node of a face comes first is irrelevant (closed surfaces: on an open one this moves the reference point) -/
+theorem vol_cyclic (pos : Nat → V3 R) (T : List Tri) (hc : Closed T) :
     volSum pos (T.map (fun t => (t.2.1, t.2.2, t.1))) = volSum pos T := by
-  rw [volSum_eq, volSum_eq, List.map_map]; congr 1
+  have hp : ∀ U : List Tri, (he (U.map (fun t => (t.2.1, t.2.2, t.1)))).Perm (he U) := by
+    intro U
+    induction U with
+    | nil => exact List.Perm.refl _
+    | cons t U ih =>
+      simp only [List.map_cons, he]
+      refine List.Perm.append ?_ ih
+      simp only [heTri]
+      exact (List.perm_append_comm (l₁ := [(t.1, t.2.1)]) (l₂ := [(t.2.1, t.2.2), (t.2.2, t.1)])).symm
+  have hc' : Closed (T.map (fun t => (t.2.1, t.2.2, t.1))) := by
+    unfold Closed at *
+    exact (((hp T).map Prod.swap).trans hc).trans (hp T).symm
+  refine volSum_closed_congr pos hc hc' ?_
+  rw [List.map_map]; congr 1
   apply List.map_congr_left; intro t _; simp only [Function.comp_def, tdet, det3_cyc]
 
 /-- reversing every face flips the sign (so a consistently oriented surface has a definite sign) -/
 theorem vol_reverse_all (pos : Nat → V3 R) (T : List Tri) : volSum pos (T.map swap23) = - volSum pos T := by
-  rw [volSum_eq, volSum_eq, List.map_map, ← sum_map_neg']; congr 1
+  rw [volSum_eq, volSum_eq, refPoint_mapTri swap23 (fun _ => rfl), List.map_map, ← sum_map_neg']; congr 1
   apply List.map_congr_left; intro t _; simp only [Function.comp_def, tdet, swap23]; exact det3_swap23 _ _ _
 
 /-! ## area -/
@@ -410,12 +475,26 @@ theorem normal_along_winding (fn : Fn R) (hf : SqrtSpec fn) (pos : Nat → V3 R)
     rw [div_mul_div_comm, div_mul_div_comm, div_mul_div_comm, ← add_div, ← add_div, ← hsq]
     exact div_self (mul_ne_zero hq0 hq0)
 
-/-- discrete divergence theorem in the direction that is used: the signed sum (6 × signed volume)
-    is the flux of the stored normals, Σ_f 2·area_f·(p₁·n̂_f) -/
-theorem vol_eq_normal_flux (fn : Fn R) (hf : SqrtSpec fn) (pos : Nat → V3 R) (T : List Tri)
+/-- discrete divergence theorem in the direction that is used, for EVERY triangle list: the signed sum the code
+    accumulates (6 × signed volume) is the flux of the stored normals seen from the reference point
+    `o = get_volume_reference_point()`, Σ_f 2·area_f·((p₁−o)·n̂_f) -/
+theorem vol_eq_normal_flux_centred (fn : Fn R) (hf : SqrtSpec fn) (pos : Nat → V3 R) (T : List Tri)
+    (hnd : ∀ t ∈ T, 0 < V3.normSq (rawNormal pos t)) :
+    volSum pos T = (T.map (fun t => 2 * faceArea fn pos t *
+      V3.dot (pos t.1 - refPoint pos T) (faceNormal fn pos t))).sum := by
+  rw [volSum_eq]; congr 1
+  apply List.map_congr_left; intro t ht
+  obtain ⟨h1, _, _⟩ := normal_along_winding fn hf pos t (hnd t ht)
+  have hn : rawNormal (rel pos (refPoint pos T)) t = rawNormal pos t := by
+    simp only [rawNormal, rel]; congr 1 <;> (apply V3.ext' <;> simp)
+  rw [tdet_eq_dot_normal, hn, ← h1, V3.dot_smul_right]; rfl
+
+/-- … and for a closed surface the flux Σ_f 2·area_f·(p₁·n̂_f) itself (the flux of a constant vector through a closed
+    surface vanishes) -/
+theorem vol_eq_normal_flux (fn : Fn R) (hf : SqrtSpec fn) (pos : Nat → V3 R) (T : List Tri) (hc : Closed T)
     (hnd : ∀ t ∈ T, 0 < V3.normSq (rawNormal pos t)) :
     volSum pos T = (T.map (fun t => 2 * faceArea fn pos t * V3.dot (pos t.1) (faceNormal fn pos t))).sum := by
-  rw [volSum_eq]; congr 1
+  rw [volSum_closed pos T hc]; congr 1
   apply List.map_congr_left; intro t ht
   obtain ⟨h1, _, _⟩ := normal_along_winding fn hf pos t (hnd t ht)
   rw [tdet_eq_dot_normal, ← h1, V3.dot_smul_right]
@@ -529,12 +608,25 @@ example : ((floodInit (nbr cubeEs) cubeT).bind (floodRun (nbr cubeEs) 40)).map (
 example : Closed [(0,1,3),(2,3,1),(0,4,1),(5,1,4),(4,0,3),(6,4,3),(2,1,5),(7,2,5),(4,7,5),(6,7,4),(3,2,6),(7,6,2)] := by
   unfold Closed; decide
 example : volume cubePos cubeO = 1 := by
-  norm_num [volume, volSum, volFinish, volStep, volInit, cubeO, cubePos, sabs, lit_eq]
+  norm_num [volume, volSum, volSumAt, volOrigin, refPoint, volRefOfFace, volFinish, volStep, volInit, cubeO, cubePos, sabs, lit_eq]
 example : volSum cubePos cubeO = 6 := by
-  norm_num [volSum, volStep, volInit, cubeO, cubePos, lit_eq]
-/-- translation invariance fails without closedness: one face alone -/
-example : volSum (fun i => cubePos i + ⟨1, 1, 1⟩) [(0,1,3)] ≠ volSum cubePos [(0,1,3)] := by
-  norm_num [volSum, volStep, volInit, cubePos, lit_eq]
+  norm_num [volSum, volSumAt, volOrigin, refPoint, volRefOfFace, volStep, volInit, cubeO, cubePos, lit_eq]
+/-- far from the origin, exactly the same number (ℚ has no rounding; `volume_translate_exact` says so for every mesh) -/
+example : volSum (fun i => cubePos i + ⟨1000000, 1000000, 1000000⟩) cubeO = 6 := by
+  rw [(volume_translate_exact cubePos cubeO _).1]
+  norm_num [volSum, volSumAt, volOrigin, refPoint, volRefOfFace, volStep, volInit, cubeO, cubePos, lit_eq]
+/-- the UN-centred sum (reference point 0) of an open surface is not translation invariant: one face alone … -/
+example : volSumAt (fun i => cubePos i + ⟨1, 1, 1⟩) ⟨0, 0, 0⟩ [(1,5,2)] ≠ volSumAt cubePos ⟨0, 0, 0⟩ [(1,5,2)] := by
+  norm_num [volSumAt, volStep, volInit, cubePos, lit_eq]
+/-- … the centred one is (the reference point moves along) -/
+example : volSum (fun i => cubePos i + ⟨1, 1, 1⟩) [(1,5,2)] = volSum cubePos [(1,5,2)] :=
+  (volume_translate_exact cubePos _ _).1
+/-- closedness is needed in `vol_perm_faces` / `vol_cyclic`: on an open surface the first node of the first face is
+    the reference point, and the sum depends on it -/
+example : volSum cubePos [(1,5,2),(0,4,1)] ≠ volSum cubePos [(0,4,1),(1,5,2)] := by
+  norm_num [volSum, volSumAt, volOrigin, refPoint, volRefOfFace, volStep, volInit, cubePos, lit_eq]
+example : volSum cubePos ([(1,5,2),(0,1,3)].map (fun t => (t.2.1, t.2.2, t.1))) ≠ volSum cubePos [(1,5,2),(0,1,3)] := by
+  norm_num [volSum, volSumAt, volOrigin, refPoint, volRefOfFace, volStep, volInit, cubePos, lit_eq]
 example : aabb (1000 : ℚ) cubePos cubeO 9 = (0, 0, 0, 1, 1, 1) := by
   norm_num [aabb, aabbOf, aabbInit, aabbStep, liveNodes, nodeUsed, cubeO, cubePos, List.range, List.range.loop]
 example : Rot (colMul (⟨3/5, 4/5, 0⟩ : V3 ℚ) ⟨-(4/5), 3/5, 0⟩ (V3.cross ⟨3/5, 4/5, 0⟩ ⟨-(4/5), 3/5, 0⟩)) :=
